@@ -169,6 +169,25 @@ fn make_pool(rng: &mut Rng, ctx: &mut Ctx) -> (Vec<Entry>, Vec<Retry>) {
             }
         }
     }
+    // (l) bias lists that end in a satellite whose only signals the message has no code for (the encoder writes the
+    // satellite with a zero count): short tails of a few bits at various alignments
+    {
+        use rtcm_rs::msg::{GloSigId, GpsSigId, Msg1059CodeBias, Msg1059T, Msg1065CodeBias, Msg1065T};
+        for lead in 0..8usize {
+            let mut t = Msg1059T::default();
+            for j in 0..lead {
+                t.biases.push(Msg1059CodeBias { satellite_id: 5, signal_id: GpsSigId::new(crate::oracle::sig::SSR_GPS[j].1, crate::oracle::sig::SSR_GPS[j].2), bias_m: 0.25 });
+            }
+            t.biases.push(Msg1059CodeBias { satellite_id: 17, signal_id: GpsSigId::new(5, 'X'), bias_m: 1.0 });
+            add(&mut pool, Message::Msg1059(t), "pool_bias_list_ending_in_uncodable_signal", ctx);
+            let mut t = Msg1065T::default();
+            for j in 0..lead.min(4) {
+                t.biases.push(Msg1065CodeBias { satellite_id: 3, signal_id: GloSigId::new(crate::oracle::sig::SSR_GLO[j].1, crate::oracle::sig::SSR_GLO[j].2), bias_m: -0.5 });
+            }
+            t.biases.push(Msg1065CodeBias { satellite_id: 20, signal_id: GloSigId::new(3, 'I'), bias_m: 1.0 });
+            add(&mut pool, Message::Msg1065(t), "pool_bias_list_ending_in_uncodable_signal", ctx);
+        }
+    }
     // (k) a target for every body length 10..=420 bytes that ends inside a byte (1059 with all biases at -0.01 =
     // all-ones codes), and descriptor messages with every string at capacity and all-ones characters as
     // predecessors: what one build leaves behind in the bytes just past another's end
